@@ -75,6 +75,15 @@ func (t *traceRec) hook(fi, ip, sp, nh int, op byte) {
 	}
 }
 
+// noStack cuts the Go stack text (goroutine ids, addresses) that handlePanic appends to
+// the message of a recovered panic: it is never compared.
+func noStack(msg string) string {
+	if i := strings.Index(msg, "\nGo Stack:"); i >= 0 {
+		return msg[:i]
+	}
+	return msg
+}
+
 func outcomeString(ret ugo.Object, err error, panicked any) string {
 	if panicked != nil {
 		return "panic"
@@ -83,11 +92,11 @@ func outcomeString(ret ugo.Object, err error, panicked any) string {
 		switch e := err.(type) {
 		case *ugo.RuntimeError:
 			if e.Err != nil {
-				return "err " + codec.Hex([]byte(e.Err.Name)) + " " + codec.Hex([]byte(e.Err.Message))
+				return "err " + codec.Hex([]byte(e.Err.Name)) + " " + codec.Hex([]byte(noStack(e.Err.Message)))
 			}
 			return "err nil"
 		case *ugo.Error:
-			return "err " + codec.Hex([]byte(e.Name)) + " " + codec.Hex([]byte(e.Message))
+			return "err " + codec.Hex([]byte(e.Name)) + " " + codec.Hex([]byte(noStack(e.Message)))
 		}
 		if strings.HasPrefix(err.Error(), "panic:") {
 			return "goerr panic"
